@@ -208,7 +208,7 @@ func runBenignForThorough(repo, verif string, ruleSpecs []string) map[string]any
 	var results []benignResult
 	var err error
 	// the built-in edits, and the refactorings written by independent sub-agents (verif/benign80/<agent>/<n>/patch.diff)
-	for _, extra := range [][]string{nil, {"-patchdir", filepath.Join(verif, "benign80")}} {
+	for _, extra := range [][]string{nil, {"-patchdir", filepath.Join(verif, "benign80")}, {"-patchdir", filepath.Join(verif, "benign80b")}} {
 		args := append([]string{"benign", "-repo", repo, "-j", "8", "-json"}, extra...)
 		if extra != nil {
 			if _, e := os.Stat(extra[1]); e != nil {
@@ -261,7 +261,7 @@ func runBenignForThorough(repo, verif string, ruleSpecs []string) map[string]any
 		cnt[st]++
 	}
 	res := map[string]any{
-		"what":  "behaviour-preserving changes of today's sources: 80 refactorings written by independent sub-agents that knew nothing of the checker (benign80/: inverted conditions with swapped branches, if/else chains turned into switches or early returns, extracted and inlined helpers and locals, range loops for counting loops, renamed receivers and locals, reordered independent statements) and 40 built-in edits (renamed locals and receivers, commuted operands, a < b+1 for a <= b, extracted locals, reordered independent statements, reworded messages, an added helper, a deferred unlock in a closure, reordered YAML keys) applied through the overlay: none of the property's rules may report a violation, become undecided, lose an anchor or fall under its floor. Measures the checker only.",
+		"what":  "behaviour-preserving changes of today's sources: 160 refactorings written by independent sub-agents that knew nothing of the checker, in two rounds (benign80/, benign80b/: inverted conditions with swapped branches, if/else chains turned into switches or early returns, extracted and inlined helpers and locals, range loops for counting loops, renamed receivers and locals, reordered independent statements) and 40 built-in edits (renamed locals and receivers, commuted operands, a < b+1 for a <= b, extracted locals, reordered independent statements, reworded messages, an added helper, a deferred unlock in a closure, reordered YAML keys) applied through the overlay: none of the property's rules may report a violation, become undecided, lose an anchor or fall under its floor. Measures the checker only.",
 		"total": len(results), "silent": cnt["silent"], "alarm": cnt["alarm"], "stale": cnt["stale"], "broken": cnt["broken"],
 	}
 	if len(alarms) > 0 {
